@@ -204,7 +204,10 @@ def rule_processor_keeps_all(repo, col):
                 dotted(n.targets[0]) == 'observation_metadata_types' and \
                 isinstance(n.value, ast.Dict):
             for k, v in zip(n.value.keys, n.value.values):
-                if not isinstance(v, ast.Lambda):
+                if isinstance(v, ast.Name) and v.id in m.defs and \
+                        isinstance(m.defs[v.id], ast.FunctionDef):
+                    v = m.defs[v.id]
+                if not isinstance(v, (ast.Lambda, ast.FunctionDef)):
                     continue
                 comps = [c for c in ast.walk(v) if isinstance(
                     c, (ast.ListComp, ast.GeneratorExp))]
